@@ -201,6 +201,7 @@ inline int mainLoop(int argc, char **argv, int timeoutMs,
   // A tree that hangs on a large share of the inputs would otherwise cost timeout x cases: after a number of
   // watchdog firings the remaining cases of this worker are reported as "skipped" (counted, never judged).
   int maxTimeouts = getenv("VERIF_MAX_TIMEOUTS") ? atoi(getenv("VERIF_MAX_TIMEOUTS")) : 12;
+  if (getenv("VERIF_CASE_TIMEOUT_MS") && atoi(getenv("VERIF_CASE_TIMEOUT_MS")) > 0) timeoutMs = atoi(getenv("VERIF_CASE_TIMEOUT_MS"));
   int timeouts = 0;
   for (auto &c : cases) {
     if (timeouts >= maxTimeouts) {
